@@ -107,6 +107,11 @@ func populate(t *rapid.T, label string, msg protoreflect.Message, o *PopOpts, de
 		case fd.Message() != nil:
 			if fd.Message().FullName() == "google.protobuf.Timestamp" {
 				m := msg.Mutable(fd).Message()
+				// one in eight: present but all-zero (the Unix epoch, what SOURCE_DATE_EPOCH=0 builds record) — a set
+				// date whose message has no non-default field
+				if rapid.IntRange(0, 7).Draw(t, l+".epoch") == 0 {
+					continue
+				}
 				sec := rapid.Int64Range(-62135596800, 253402300799).Draw(t, l+".sec")
 				if rapid.Bool().Draw(t, l+".recent") {
 					sec = rapid.Int64Range(0, 2000000000).Draw(t, l+".sec2")
